@@ -144,6 +144,24 @@ class SymLabels(I.SymDictBase):
     def iterate_items(self, it):
         raise I.Unsupported('iteration over labels.items() outside the comprehension idiom')
 
+    def snapshot(self):
+        """a frozen copy of the current state (dict(labels), {**labels}, labels.copy())"""
+        c = SymLabels.__new__(SymLabels)
+        c.run, c.name = self.run, self.name + '_snapshot'
+        c.val0, c.has0, c.xf = self.val0, self.has0, self.xf
+        c.version, c.writes, c.updates = self.version, list(self.writes), list(self.updates)
+        c.is_snapshot = True
+        return c
+
+    def havoc(self, tag):
+        """make the state arbitrary (loop head of a Hoare step): earlier snapshots keep the old state"""
+        n = next(self.run.counter)
+        self.val0 = z3.Function('%s%s_%d' % (self.name, tag, n), z3.IntSort(), z3.IntSort())
+        self.has0 = z3.Function('%s%shas_%d' % (self.name, tag, n), z3.IntSort(), z3.BoolSort())
+        self.xf = lambda t: t
+        self.writes, self.updates = [], []
+        self.version += 1000
+
 
 class SymConsts(I.SymDictBase):
     def __init__(self, run, name='K'):
@@ -197,7 +215,38 @@ class SymConsts(I.SymDictBase):
         it.note_mutation(self, 'setitem')
 
     def getattr(self, it, name):
+        if name == 'items':
+            return I.Builtin('constants.items', lambda it, a, k: I.SymItems(self))
+        if name == 'update':
+            return I.Builtin('constants.update', self._update)
         raise I.Unsupported('constants.%s' % name)
+
+    def comprehension(self, it, node, env):
+        # evaluated like the label idiom; any resulting update is a store into the constants (never legitimate in a pass)
+        return SymLabels.comprehension(self, it, node, env)
+
+    def _update(self, it, args, kw):
+        (u,) = args
+        it.note_mutation(self, 'update')
+        if isinstance(u, dict) and not u:
+            return None
+        self.writes.append((z3.Int('any_constant'), z3.Int('rewritten_value')))
+        self.version += 1
+        return None
+
+    def snapshot(self):
+        c = SymConsts.__new__(SymConsts)
+        c.run, c.val0, c.has0 = self.run, self.val0, self.has0
+        c.writes, c.version = list(self.writes), self.version
+        c.is_snapshot = True
+        return c
+
+    def havoc(self, tag):
+        n = next(self.run.counter)
+        self.val0 = z3.Function('K%s_%d' % (tag, n), z3.IntSort(), z3.IntSort())
+        self.has0 = z3.Function('K%shas_%d' % (tag, n), z3.IntSort(), z3.BoolSort())
+        self.writes = []
+        self.version += 1000
 
     def iterate(self, it):
         raise I.Unsupported('iteration over constants')
